@@ -7,8 +7,8 @@ import time
 from .facts import VERIF, AnalysisBroken
 
 KNOWN = os.path.join(VERIF, 'known_findings.json')
-EVIDENCE = os.path.join(VERIF, 'evidence')
-REPORTS = os.path.join(VERIF, 'build', 'reports')
+EVIDENCE = os.environ.get('VERIF_EVIDENCE_DIR') or os.path.join(VERIF, 'evidence')
+REPORTS = os.environ.get('VERIF_REPORT_DIR') or os.path.join(VERIF, 'build', 'reports')
 
 
 class Check:
